@@ -143,12 +143,37 @@ def run_sim(case):
     prog = case["prog"]
     c = call("build", build_real, prog)
     nv = c.input_modes
-    inputs = [lw.State(list(s)) for s in case["inputs"]]
+    variant = (len(prog["ops"]) + 3 * sum(case["inputs"][0]) + len(case["inputs"])) % 4     # a function of the case
+    # states are built from lists or from tuples
+    mk = (lambda s: lw.State(tuple(s))) if variant == 1 else (lambda s: lw.State(list(s)))
+    inputs = [mk(s) for s in case["inputs"]]
     arg_in = inputs[0] if case["single"] else inputs
-    outputs = None if case["outputs"] is None else [lw.State(list(s)) for s in case["outputs"]]
+    outputs = None if case["outputs"] is None else [mk(s) for s in case["outputs"]]
     sim = emulator.Simulator(c)
-    res = call("simulate", sim.simulate, arg_in, outputs)
-    arr = np.asarray(res.array)
+    old_precision = lw.settings.unitary_precision
+    try:
+        if variant == 2:
+            # a looser unitarity tolerance (as set to load measured / rounded matrices) does not change amplitudes
+            lw.settings.unitary_precision = 1e-3
+        res = call("simulate", sim.simulate, arg_in, outputs)
+    finally:
+        lw.settings.unitary_precision = old_precision
+    arr = np.array(res.array, copy=True)
+    if variant == 3 and case["outputs"] is None:
+        # whatever the caller does to the lists / array of a result it was given, the next simulation is unaffected
+        first_outs = [list(s) for s in res.outputs]
+        res.outputs.clear()
+        res.inputs.clear()
+        try:
+            res.array[...] = 0
+        except (ValueError, TypeError):
+            pass
+        again_in = [mk(s) for s in case["inputs"]]       # (the first result's lists may be the caller's own objects)
+        res = call("simulate (again)", emulator.Simulator(c).simulate,
+                   again_in[0] if case["single"] else again_in, None)
+        if [list(s) for s in res.outputs] != first_outs or not np.array_equal(np.asarray(res.array), arr):
+            raise Violation("a second simulate() differs from the first after the caller emptied the first result's "
+                            "lists / array in place", key="result-aliased")
     r_in = [list(s) for s in res.inputs]
     r_out = [list(s) for s in res.outputs]
     nph = sum(case["inputs"][0])
@@ -204,7 +229,8 @@ def bad_case(draw):
                                  "out-mismatch", "out-length", "not-state", "out-not-state",
                                  "float-int-valued"]))
     return {"prog": prog, "good": good, "kind": kind, "pos": draw(st.integers(0, nv - 1)),
-            "extra": draw(st.integers(1, 2)), "bare": draw(st.booleans())}
+            "extra": draw(st.integers(1, 2)), "bare": draw(st.booleans()),
+            "form": draw(st.sampled_from(["list", "list", "tuple", "ndarray"]))}
 
 
 def run_bad(case):
@@ -215,7 +241,17 @@ def run_bad(case):
     sim = emulator.Simulator(c)
     good = list(case["good"])
     k, pos = case["kind"], case["pos"]
-    S = lw.State
+    form = {"list": list, "tuple": tuple, "ndarray": np.array}[case.get("form", "list")]
+    if k in ("not-state", "out-not-state"):
+        form = list
+
+    class Lazy:                       # a State built only inside the guarded call, from a list / tuple / ndarray
+        def __init__(self, v):
+            self.v = v
+
+        def make(self):
+            return lw.State(form(self.v))
+    S = Lazy
     outs = None
     excs = (ModeMismatchError, PhotonNumberError, TypeError, ValueError)
     if k == "short":
@@ -249,7 +285,20 @@ def run_bad(case):
         if outs is not None and len(outs) == 1 and k != "out-not-state":
             outs = outs[0]
             labels.append("bare-output")
-    expect_raises(f"simulate({k})", excs, sim.simulate, ins, outs)
+    def realise(x):
+        if isinstance(x, Lazy):
+            return x.make()
+        if isinstance(x, list) and any(isinstance(y, Lazy) for y in x):
+            return [realise(y) for y in x]
+        return x
+
+    def attempt():
+        return sim.simulate(realise(ins), realise(outs))
+    if form is not list:
+        # building the State may already refuse the values: any of the documented exception types counts
+        excs = tuple(set(excs) | {TypeError, ValueError})
+        labels.append("state-from-" + case["form"])
+    expect_raises(f"simulate({k})", excs, attempt)
     return {"nontrivial": True, "labels": labels}
 
 
